@@ -11,8 +11,10 @@ def effective_timeformat(report_fmt, project_fmt):
 def rows(spec, obs, columns, leaf_only, timefmt, sc=0):
     """-> (header titles, [row cells]) for tasks in declaration order"""
     rate = {}
-    for full, r, _p in walk_resources(spec.get("resources")):
-        rate[full] = r.get("rate") or 0.0
+    for full, r, parent in walk_resources(spec.get("resources")):
+        # a group's rate reaches the members that state none; a stated rate - also 'rate 0' - is the member's own
+        own = r.get("rate")
+        rate[full] = (own if own is not None else rate.get(parent, 0.0)) or 0.0
     names = {fid: t.get("name", t["id"]) for fid, t, _p in walk_tasks(spec.get("tasks"))}
     prio = {}
 
